@@ -10,7 +10,7 @@ import (
 
 // disp <proto>,<net>,<v6up>,<fsm> <payload>
 //
-//	net:  PhaseFn reports PhaseNetwork (1) or PhaseAuthenticate (0); 2 = PhaseOpen, 3 = PhaseFn nil
+//	net:  PhaseFn reports 0 Authenticate, 1 Network, 2 Open, 3 = PhaseFn nil, 4 Dead, 5 Establish, 6 Terminate, 7 LACTunnelPending, 8 LACTunneled
 //	fsm:  0 no FSMs installed, 1 fresh FSMs (Req-Sent), 2 FSMs restored to Opened
 //	v6up: IPv6CP restored to Opened (only meaningful with fsm != 0)
 func c07Disp(entry string, n []uint64, f []string) string {
@@ -44,6 +44,17 @@ func c07Disp(entry string, n []uint64, f []string) string {
 		d.PhaseFn = func() ppp.Phase { return ppp.PhaseNetwork }
 	case 2:
 		d.PhaseFn = func() ppp.Phase { return ppp.PhaseOpen }
+	case 3: // no PhaseFn
+	case 4:
+		d.PhaseFn = func() ppp.Phase { return ppp.PhaseDead }
+	case 5:
+		d.PhaseFn = func() ppp.Phase { return ppp.PhaseEstablish }
+	case 6:
+		d.PhaseFn = func() ppp.Phase { return ppp.PhaseTerminate }
+	case 7:
+		d.PhaseFn = func() ppp.Phase { return ppp.PhaseLACTunnelPending }
+	case 8:
+		d.PhaseFn = func() ppp.Phase { return ppp.PhaseLACTunneled }
 	}
 	if fsm := c07Num(n, 3); fsm != 0 {
 		cb := ppp.Callbacks{Send: func(code, id uint8, data []byte) { fsmSent++ }}
